@@ -40,3 +40,5 @@ done
 git -C /repo checkout -- .
 /venv/bin/python tools/translate.py > /dev/null
 echo "== /repo restored: $(git -C /repo status --short | wc -l) modified files"
+# the evidence files were rewritten by checks on the CHANGED tree: put the committed ones back (never commit those)
+git -C /verif checkout -- evidence 2>/dev/null || true
